@@ -81,6 +81,7 @@ def check(program: Program, run: Run) -> None:
     run.rule("R1 every name hole is Quoted with a quote expression built from ctx.quote_char / ctx.alias_quote_char")
     run.rule("R2 definition-site and reference-site quote characters are equal under every shipped SQL_CONTEXT")
     run.rule("R3 the quoted text has the delimiter doubled (escape)")
+    run.rule("R6 a name supplied to a constructor/builder reaches the name-bearing object unmodified: no str transformation (split, strip, case change, replace ...) of a parameter in a function that builds Schema/Table/Field/Column/Index objects or stores a name attribute")
     run.rule("R5 (inherited from C08/R1) no name-bearing child is formatted with str()/format instead of get_sql(ctx): it would be quoted with the default context's characters")
     run.rule("R4 every row-source slot (FROM item, UPDATE target, joined item) writes the table's alias exactly once: column qualifiers refer to it")
     fsk = function_skeletons(program)
@@ -218,3 +219,41 @@ def check(program: Program, run: Run) -> None:
         if not fd.info and fd.key.startswith("C08/ctx-bypass:"):
             run.finding("C07/quote-context-bypass:" + fd.key.split(":", 1)[1], "names inside this child are written with the default context's quote character and without qualifier: " + fd.what,
                         where=fd.where, rule="R5 (inherited from C08)")
+
+    # ---- R6: 'denoting exactly the supplied name whatever characters it contains' -- a dot, a space or mixed case in a
+    # name is content, not structure.  Any str-only transformation of a parameter inside a function that turns parameters
+    # into name-bearing objects changes which identifier(s) the name denotes.
+    import ast as _ast
+    STR_TRANSFORMS = {"split", "rsplit", "partition", "rpartition", "splitlines", "strip", "lstrip", "rstrip", "lower", "upper", "title", "capitalize",
+                      "casefold", "swapcase", "replace", "translate", "removeprefix", "removesuffix", "encode", "expandtabs", "zfill", "center", "ljust", "rjust"}
+    NAMED = {c.name for c in program.all_classes() if any(a in program.attr_kinds(c) for a in ("_table_name", "_name")) or c.name in ("Field", "Column", "Index", "Schema", "Table", "Star", "AliasedQuery", "Cte")}
+    nfun = 0
+    for f in program.all_functions():
+        params = set(f.params[1:] if f.cls is not None and not f.is_static else f.params)
+        if not params:
+            continue
+        builds = False
+        for n in _ast.walk(f.node):
+            if isinstance(n, _ast.Call):
+                nm = n.func.id if isinstance(n.func, _ast.Name) else (n.func.attr if isinstance(n.func, _ast.Attribute) else None)
+                if nm in NAMED:
+                    builds = True
+            if isinstance(n, _ast.Assign):
+                for t in n.targets:
+                    if isinstance(t, _ast.Attribute) and t.attr in NAME_ATTRS | {"_schema"} and isinstance(t.value, _ast.Name) and f.params and t.value.id == f.params[0]:
+                        builds = True
+        if not builds:
+            continue
+        nfun += 1
+        for n in _ast.walk(f.node):
+            if isinstance(n, _ast.Call) and isinstance(n.func, _ast.Attribute) and n.func.attr in STR_TRANSFORMS and isinstance(n.func.value, _ast.Name) and n.func.value.id in params:
+                prm, m = n.func.value.id, n.func.attr
+                run.ob("C07/R6 names reach name-bearing objects unmodified", f"{f.qualname}:{prm}.{m}", False, where=f.loc(n))
+                run.finding(f"C07/name-transformed:{f.qualname}:{prm}.{m}",
+                            f"{f.qualname} applies .{m}() to its parameter `{prm}` while building name-bearing objects: characters of the supplied name are treated as structure "
+                            f"(e.g. a dot splitting one identifier into two), so the emitted identifier(s) no longer denote exactly the supplied name",
+                            where=f.loc(n), rule="R6", excerpt=f.module.excerpt(n.lineno, 1))
+    run.ob("C07/R6 names reach name-bearing objects unmodified", "package", True, detail=f"{nfun} functions that build name-bearing objects scanned", nontrivial=False)
+    run.analysed["name_building_functions"] = nfun
+    if nfun < 20:
+        raise AnalysisError(f"instance count below floor: name-building functions {nfun}")
